@@ -356,6 +356,13 @@ class Body:
     def line(self, off):
         return self.base_line + self.text.count('\n', 0, off)
 
+    def flush(self):
+        """apply the pending rewrite edits so that hint anchors are matched against the REWRITTEN body"""
+        if self.edits:
+            self.text = self.apply()
+            self.edits = []
+            self.toks = lex(self.text)
+
     def code(self):
         return [k for k, t in enumerate(self.toks) if t[0] not in ('ws', 'lcomment', 'bcomment')]
 
@@ -541,6 +548,8 @@ class Body:
                     if start is None:
                         raise ExtractError('R7: cannot find receiver at line %d' % self.line(t[2]))
                     recv_txt = self.text[T(start)[2]:T(ci - 2)[3]]
+                    if re.search(r'\.\s*(iter|into_iter|iter_mut|chars|bytes|keys|values|lines|drain)\s*\(\s*\)\s*$', recv_txt):
+                        raise ExtractError('R7: `.%s` on an iterator at line %d is not an Option combinator (only Option receivers are desugared)' % (t[1], self.line(t[2])))
                     if t[1] == 'and_then':
                         rep = '(match %s { Some(%s) => %s, None => None })' % (recv_txt, pat, body_txt)
                     elif t[1] == 'map':
@@ -629,6 +638,77 @@ class Body:
                 return
             a, b, rep, t = hit
             self.rewrites.append(dict(rule='R9 filter-count', line=self.line(t[2]), what='.filter(|p| E).count() -> counting for-loop'))
+            self.text = self.text[:a] + rep + self.text[b:]
+            self.toks = lex(self.text)
+
+    # R8: V.extend(I.map(|PAT| E));  ->  for PAT in I { V.push(E); }     (Vec::extend pushes the items in order;
+    #     Iterator::map applies the closure to each item - their definition).  A `&x` closure pattern becomes
+    #     `x__r` + `let x = *x__r;` directly (that is R1 applied to the generated loop).
+    def r8_extend_map(self):
+        guard = 0
+        while True:
+            guard += 1
+            if guard > 100:
+                raise ExtractError('R8: rewrite did not terminate')
+            code = self.code()
+            T = lambda ci: self.toks[code[ci]]
+            n = len(code)
+            hit = None
+            for ci in range(1, n - 8):
+                t = T(ci)
+                if not (t[0] == 'ident' and t[1] == 'extend' and T(ci - 1)[1] == '.' and T(ci + 1)[1] == '('):
+                    continue
+                close = self._close(code, ci + 1)
+                if not (close + 1 < n and T(close + 1)[1] == ';'):
+                    continue
+                # receiver V: a plain identifier directly before '.extend', at statement start
+                if not (T(ci - 2)[0] == 'ident' and (ci - 3 < 0 or T(ci - 3)[1] in ('{', '}', ';'))):
+                    continue
+                vec_name = T(ci - 2)[1]
+                # the argument must end with  .map(|PAT| E)
+                # find '.map(' at depth 1 inside the argument such that its ')' is the last token before `close`
+                m_ci = None
+                depth = 0
+                for k in range(ci + 2, close):
+                    tt = T(k)
+                    if tt[0] == 'punct' and tt[1] in OPEN:
+                        depth += 1
+                    elif tt[0] == 'punct' and tt[1] in CLOSE:
+                        depth -= 1
+                    elif depth == 0 and tt[0] == 'ident' and tt[1] == 'map' and T(k - 1)[1] == '.' and T(k + 1)[1] == '(':
+                        if self._close(code, k + 1) == close - 1 or (T(close - 1)[1] == ',' and self._close(code, k + 1) == close - 2):
+                            m_ci = k
+                if m_ci is None:
+                    continue
+                mclose = self._close(code, m_ci + 1)
+                if T(m_ci + 2)[1] != '|':
+                    continue
+                k = m_ci + 3
+                while k < mclose and T(k)[1] != '|':
+                    k += 1
+                pat = self.text[T(m_ci + 3)[2]:T(k - 1)[3]].strip()
+                body_hi = mclose - 1
+                if T(body_hi)[1] == ',':
+                    body_hi -= 1
+                body_txt = self.text[T(k + 1)[2]:T(body_hi)[3]]
+                for x in range(k + 1, body_hi + 1):
+                    if T(x)[1] in ('return', 'break', 'continue', '?'):
+                        raise ExtractError('R8: closure body with control flow at line %d' % self.line(t[2]))
+                iter_txt = self.text[T(ci + 2)[2]:T(m_ci - 2)[3]]
+                mm = re.fullmatch(r'&\s*([A-Za-z_][A-Za-z0-9_]*)', pat)
+                if mm:
+                    x = mm.group(1)
+                    rep = 'for %s__r in %s { let %s = *%s__r; %s.push(%s); }' % (x, iter_txt, x, x, vec_name, body_txt)
+                elif re.fullmatch(r'[A-Za-z_][A-Za-z0-9_]*', pat):
+                    rep = 'for %s in %s { %s.push(%s); }' % (pat, iter_txt, vec_name, body_txt)
+                else:
+                    raise ExtractError('R8: unsupported closure pattern `%s` at line %d' % (pat, self.line(t[2])))
+                hit = (T(ci - 2)[2], T(close + 1)[3], rep, t)
+                break
+            if not hit:
+                return
+            a, b, rep, t = hit
+            self.rewrites.append(dict(rule='R8 extend-map', line=self.line(t[2]), what='V.extend(I.map(|p| E)) -> for p in I { V.push(E) }'))
             self.text = self.text[:a] + rep + self.text[b:]
             self.toks = lex(self.text)
 
